@@ -1,7 +1,8 @@
 """C02 - parsed expression trees follow the operator table."""
 from ..report import Check
 from ..lexer import Lexer, Keywords
-from ..rules import lalr
+from ..callgraph import CallGraph
+from ..rules import lalr, optable
 
 
 def run(F, G, tier, seed):
@@ -11,6 +12,7 @@ def run(F, G, tier, seed):
     chk.analysed["front"] = {"units": F.n_units, "functions": F.n_functions, "lexer_rules": L.n_rules,
                              "keywords": len(K.map)}
     lalr.run(chk, F, G, L, K)
+    optable.run(chk, F, G, L, K, CallGraph(F))
     return chk.finish(
         "Decides the grouping clause of C02 for ALL nesting depths: an LR parser's shift/reduce decision depends "
         "only on (state, look-ahead), so checking every automaton state that holds a completed right-open operator "
